@@ -7,6 +7,12 @@
 //     * oracle: long-double reference of the documented operator, |impl - ref|_inf <= C n eps scale  (C = 256, scale = ||A|| ||x|| for
 //       products, cond_inf * ||y|| for solves, see reference());  error mapping (singular shift => std::invalid_argument, non-SPD => NumericalIssue);
 //     * product wrappers with operator*(matrix) / operator()(i,i): checked against the same reference (oracle only);
+//     * shift-and-invert wrappers (SymShiftSolve, GenRealShiftSolve, GenComplexShiftSolve, SymShiftInvert; dense and sparse): extra NEAR-SINGULAR-PIVOT
+//       cases (gen_near: grid Laplacians, tridiagonal Toeplitz, diagonal + low rank, sigma within 1e-9..1e-5 (relative) of a diagonal entry, shifted
+//       matrix well conditioned), and for every real shift solve the normwise BACKWARD error
+//       |(A - sigma B) y - x|_inf / (|A - sigma B|_inf |y|_inf + |x|_inf) <= C n eps  (same C = 256): LU with partial pivoting and Bunch-Kaufman pass,
+//       an elimination that keeps tiny diagonal pivots does not;
+//     * complex shift solves: the shift history set_shift(complex); set_shift(real, 0); set_shift(same complex) on ONE object must reproduce the first answer;
 //     * metamorphic: the junk triangle is overwritten with different huge values (and a different sparsity pattern): outputs bit-identical.
 #include "common.h"
 // an Eigen assertion is a result, not the end of the run: it is turned into an exception that the case runner records
@@ -139,8 +145,25 @@ static uint64_t hash_str(const std::string& s) { uint64_t h = 146959810393466560
 static void run_case(const Inst& I, const Args& a, Out& out, int ci, int ncases) {
     Rng rng(a.seed, hash_str(I.cfg) % 1000003ull, (uint64_t) ci);
     static const int sizes_q[] = {3, 1, 2, 5, 8, 12, 4, 6}; static const int sizes_t[] = {3, 1, 2, 5, 8, 12, 4, 6, 7, 16, 9, 24, 10, 2, 13, 20};
-    const int n = a.thorough() ? sizes_t[ci % 16] : sizes_q[ci % 8];
     const bool isfloat = I.scalar == "float" || I.scalar == "cfloat";
+    const int nearidx = ci - ncases;                        // >= 0: near-singular-pivot case number (shift-and-invert wrappers only)
+    const bool near = nearidx >= 0;
+    NearProb np; const LD condnear = isfloat ? 50 : 1000;
+    if (near) {
+        const bool sym = I.kind == SYMSHIFT || I.kind == SSI;
+        bool ok = false;
+        for (int t = 0; t < 8 && !ok; t++) {
+            np = gen_near(rng, nearidx + (int) (hash_str(I.cfg) % 3), nearidx / 3 + (int) (hash_str(I.cfg) / 3 % 3), a.thorough(), sym, I.kind == SSI, I.kind == GENCSHIFT, isfloat);
+            const int m = (int) np.A.rows();
+            LMat M = I.kind == SSI ? ld_pencil(np.A, 0, np.B, 0, np.sigma) : LMat(ld_sym(np.A, 0) - (LD) np.sigma * LMat::Identity(m, m));
+            LD big = ninf(ld_sym(np.A, 0)) + std::fabs((LD) np.sigma) * (I.kind == SSI ? ninf(ld_sym(np.B, 0)) : (LD) 1);
+            if (!(ninf(M) * 16 >= big)) continue;          // the shifted matrix must not be a small difference of large ones (its entries are rounded once when formed)
+            if (I.kind == GENCSHIFT) { LMat T = M; M = LMat::Zero(2 * m, 2 * m); M.topLeftCorner(m, m) = T; M.bottomRightCorner(m, m) = T; M.topRightCorner(m, m) = (LD) np.sigmai * LMat::Identity(m, m); M.bottomLeftCorner(m, m) = -(LD) np.sigmai * LMat::Identity(m, m); }
+            ok = ld_cond(M) <= condnear;
+        }
+        if (!ok) { out.count("skipped_near_illconditioned"); out.count(std::string("skipped_near_") + near_family_name(np.fam)); return; }
+    }
+    const int n = near ? (int) np.A.rows() : a.thorough() ? sizes_t[ci % 16] : sizes_q[ci % 8];
     const int fam = (int) rng.below(4);
     auto pattern = [&](bool sparse) { return sparse ? 1 + (int) rng.below(3) : (int) rng.below(4); };
     const bool special = (ci == ncases - 1) && n >= 2 && (I.kind == SYMSHIFT || (I.kind == GENRSHIFT && I.sparse) || (I.kind == GENCSHIFT && I.sparse && n >= 3) || I.kind == SSI || I.kind == CHOL || I.kind == COMP2);
@@ -148,7 +171,8 @@ static void run_case(const Inst& I, const Args& a, Out& out, int ci, int ncases)
     DMat SA, SAi, SB, SC;
     Prob p; p.n = n; p.form = ci % std::max(1, I.nforms);
     p.sigma = 0; p.sigmai = 0;
-    switch (I.kind) {
+    if (near) { SA = np.A; if (I.kind == SSI) SB = np.B; p.sigma = np.sigma; p.sigmai = np.sigmai; }
+    else switch (I.kind) {
         case GENPROD: SA = gen_gen(rng, n, fam, pattern(I.sparse)); break;
         case SYMPROD: SA = gen_sym(rng, n, fam, pattern(I.sparse)); break;
         case HERMPROD: { SA = gen_sym(rng, n, fam, pattern(I.sparse)); SAi = gen_sym(rng, n, fam, pattern(I.sparse)); for (int i = 0; i < n; i++) { SAi(i, i) = 0; for (int j = i + 1; j < n; j++) SAi(i, j) = -SAi(j, i); } break; }
@@ -159,7 +183,7 @@ static void run_case(const Inst& I, const Args& a, Out& out, int ci, int ncases)
         case SSI: case COMP2: SA = gen_sym(rng, n, fam, pattern(I.sparse)); SB = gen_spd(rng, n, fam, pattern(I.sparseB)); p.sigma = 2.0 * rng.sym(); if (I.kind == COMP2) SC = (I.kind2 == 1 ? SA : SB); break;
         case COMPCH: case COMPRI: SA = gen_sym(rng, n, fam, pattern(I.sparse)); SB = gen_spd(rng, n, fam, pattern(I.sparseB)); break;
     }
-    if (fam == 1) p.sigma = std::round(p.sigma * 4) / 4;
+    if (fam == 1 && !near) p.sigma = std::round(p.sigma * 4) / 4;
     if (special) {
         // error mapping: exactly singular shifted matrix (decoupled coordinate k whose pivot is exactly 0) / a non-SPD matrix
         int k = (int) rng.below(n);
@@ -181,7 +205,7 @@ static void run_case(const Inst& I, const Args& a, Out& out, int ci, int ncases)
     if (isfloat) { round_float(SA); if (SAi.size()) round_float(SAi); if (SB.size()) round_float(SB); if (SC.size()) round_float(SC); round_float(p.x); if (p.xi.size()) round_float(p.xi); p.sigma = (double) (float) p.sigma; p.sigmai = (double) (float) p.sigmai; }
     // ---- keep the shifted matrix reasonably conditioned (the property quantifies over nonsingular shifted matrices)
     const LD condmax = isfloat ? 50 : 1e4;
-    if (!special && (I.kind == SYMSHIFT || I.kind == GENRSHIFT || I.kind == GENCSHIFT || I.kind == SSI || I.kind == COMP2)) {
+    if (!special && !near && (I.kind == SYMSHIFT || I.kind == GENRSHIFT || I.kind == GENCSHIFT || I.kind == SSI || I.kind == COMP2)) {
         bool ok = false;
         for (int t = 0; t < 12 && !ok; t++) {
             LMat M = I.kind == SSI || I.kind == COMP2 ? ld_pencil(SA, 0, SB, 0, p.sigma) : LMat(ld_sym(SA, 0) - (LD) p.sigma * LMat::Identity(n, n));
@@ -202,10 +226,12 @@ static void run_case(const Inst& I, const Args& a, Out& out, int ci, int ncases)
     { std::ofstream lc(out.dir + "/lastcase.txt"); lc << replay_json(I, a, ci, n, "?") << "\n"; }
     Res r = I.run(p);
     out.count(std::string("cases_") + kind_name(I.kind)); out.count("form_" + str(p.form)); out.count("n_" + str(n)); if (special) out.count("special_error_mapping");
+    if (near) { out.count(std::string("near_pivot_") + near_family_name(np.fam)); out.count(std::string("near_pivot_") + kind_name(I.kind)); }
+    const std::string nearinfo = near ? std::string(", near-singular pivot: ") + near_family_name(np.fam) + " " + np.desc + ", sigma = d(1 +- " + str(np.delta) + ") for the diagonal entry d of index " + str(np.k) : std::string();
     Ref ref = reference(I, p, r.perm, r.blocks.size());
     // ---- correspondence line (double configurations; the model has no float / long double instance)
     if (I.scalar == "double" || I.scalar == "cdouble") {
-        std::string resp = r.status == "ok" || r.status == "unstable" ? "ok" : "throw";
+        std::string resp = r.status == "ok" || r.status == "unstable" || r.status == "stale" ? "ok" : "throw";
         for (size_t b = 0; b < r.blocks.size() && (r.ncorr < 0 || (int) b < r.ncorr); b++) for (LD v : r.blocks[b]) { resp += " "; resp += str(dbits((double) v)); }
         out.corr(request_line(I, p, r.perm), resp);
         static std::ofstream meta(out.dir + "/meta.txt");      // one replay descriptor per request line
@@ -213,9 +239,9 @@ static void run_case(const Inst& I, const Args& a, Out& out, int ci, int ncases)
     }
     // ---- oracle: documented operator
     if (!ref.usable) { out.count("reference_unusable"); }
-    else if (ref.status != (r.status == "ok" ? "ok" : r.status == "unstable" ? "unstable" : "throw")) {
-        out.fail(ref.status == "throw" ? "error-mapping" : "wrong-operator", I.cfg + ": documented operator " + (ref.status == "throw" ? "does not exist (singular / not SPD) but the wrapper reported success" : "exists (cond " + str((double) ref.cond) + ") but the wrapper " + (r.status == "unstable" ? "returned different answers on two calls" : "failed with " + r.exc)) + " (n=" + str(n) + ")",
-                 replay_json(I, a, ci, n, r.status == "ok" ? "set_shift" : (r.members.empty() ? (I.kind == REGINV ? "solve" : "perform_op") : r.members[0])));
+    else if (ref.status != (r.status == "ok" ? "ok" : r.status == "unstable" ? "unstable" : r.status == "stale" ? "stale" : "throw")) {
+        out.fail(ref.status == "throw" ? "error-mapping" : "wrong-operator", I.cfg + ": documented operator " + (ref.status == "throw" ? "does not exist (singular / not SPD) but the wrapper reported success" : "exists (cond " + str((double) ref.cond) + ") but the wrapper " + (r.status == "unstable" ? "returned different answers on two calls" : r.status == "stale" ? "returned a different answer after the shift history set_shift(sigma); set_shift(real shift, 0); set_shift(sigma) on the same object" : "failed with " + r.exc)) + " (n=" + str(n) + nearinfo + ")",
+                 replay_json(I, a, ci, n, r.status == "ok" || r.status == "stale" ? "set_shift" : (r.members.empty() ? (I.kind == REGINV ? "solve" : "perform_op") : r.members[0])));
     } else if (r.status == "throw") {
         out.count("oracle_error_mapping_ok");
         const bool wantInfo = I.kind == CHOL || I.kind == COMPCH;
@@ -227,10 +253,20 @@ static void run_case(const Inst& I, const Args& a, Out& out, int ci, int ncases)
             LD tol = C_ORACLE * n * (LD) I.eps * ref.scales[b];
             out.count("oracle_blocks");
             if (!(err <= tol))
-                out.fail("wrong-operator", I.cfg + "::" + r.members[b] + ": |result - documented operator|_inf = " + str((double) err) + " > " + str((double) tol) + " = 256 n eps scale (n=" + str(n) + ", cond=" + str((double) ref.cond) + ", |ref|=" + str((double) vinf(ref.blocks[b])) + ")",
+                out.fail("wrong-operator", I.cfg + "::" + r.members[b] + ": |result - documented operator|_inf = " + str((double) err) + " > " + str((double) tol) + " = 256 n eps scale (n=" + str(n) + ", cond=" + str((double) ref.cond) + ", |ref|=" + str((double) vinf(ref.blocks[b])) + nearinfo + ")",
                          replay_json(I, a, ci, n, r.members[b]));
         }
         if (r.blocks.size() != ref.blocks.size()) out.fail("wrong-operator", I.cfg + ": number of outputs", replay_json(I, a, ci, n, "?"));
+        // ---- normwise backward error of the real shift solves (what a backward-stable factorization guarantees whatever the conditioning)
+        if ((I.kind == SYMSHIFT || I.kind == GENRSHIFT || I.kind == SSI) && r.blocks.size() == 1) {
+            LMat M = I.kind == SSI ? ld_pencil(p.A, I.uplo, p.B, I.uploB, p.sigma) : LMat(ld_sym(p.A, I.uplo) - (LD) p.sigma * LMat::Identity(n, n));
+            LVec y = tolv(r.blocks[0]), x = tolv(p.x), res = M * y - x;
+            LD eta = vinf(res) / (ninf(M) * vinf(y) + vinf(x)), tol = C_ORACLE * n * (LD) I.eps;
+            out.count("oracle_backward");
+            if (!(eta <= tol))
+                out.fail("backward-error", I.cfg + "::perform_op: |(A - sigma B) y - x|_inf / (|A - sigma B|_inf |y|_inf + |x|_inf) = " + str((double) eta) + " > " + str((double) tol) + " = 256 n eps (n=" + str(n) + ", sigma=" + str(p.sigma) + ", cond=" + str((double) ref.cond) + nearinfo + ")",
+                         replay_json(I, a, ci, n, "perform_op"));
+        }
     }
     // ---- metamorphic: overwrite the unused triangle(s)
     if (I.uplo || I.uploB || I.uploC) {
@@ -254,11 +290,12 @@ int main(int argc, char** argv) {
         auto getI = [&](const std::string& k, long d) { auto p = t.find("\"" + k + "\""); if (p == std::string::npos) return d; p = t.find(':', p); return std::atol(t.c_str() + p + 1); };
         only_cfg = getS("cfg"); only_case = (int) getI("case", -1); a.seed = (uint64_t) getI("seed", (long) a.seed); std::string tr = getS("tier"); if (!tr.empty()) a.tier = tr;
     }
-    const int ncases = a.thorough() ? 24 : 8;
+    const int ncases = a.thorough() ? 24 : 8, nnear = a.thorough() ? 9 : 3;      // base cases; near-singular-pivot cases (case numbers ncases .. ncases + nnear - 1)
     for (auto& I : insts) {
         if (!only_cfg.empty() && I.cfg != only_cfg) continue;
         out.count("configurations");
-        for (int ci = 0; ci < ncases; ci++) { if (only_case >= 0 && ci != only_case) continue; run_case(I, a, out, ci, ncases); }
+        const bool shiftinv = I.kind == SYMSHIFT || I.kind == GENRSHIFT || I.kind == GENCSHIFT || I.kind == SSI;
+        for (int ci = 0; ci < ncases + (shiftinv ? nnear : 0); ci++) { if (only_case >= 0 && ci != only_case) continue; run_case(I, a, out, ci, ncases); }
     }
     { std::ofstream cf(a.out + "/configs.txt"); for (auto& I : insts) cf << I.cfg << "\n"; }
     out.finish();
